@@ -668,7 +668,7 @@ pub fn run(check: &mut Check) {
                 jobs.push(json!({"script": si, "step": step, "part": part, "parts": parts}).to_string());
                 meta.push((si, step, part));
             }
-            if !sc.name.starts_with("kv2-") || (tier == Tier::Thorough && si % 7 == 0) {
+            if !sc.name.starts_with("kv2-") || tier == Tier::Thorough {
                 jobs.push(json!({"script": si, "step": step, "part": 0, "parts": 1, "level2": true}).to_string());
                 meta.push((si, step, 999));
             }
